@@ -193,7 +193,7 @@ ADDED = {
  "C04": " Also: the value of a power, 1 for exponent 0 whatever the base (C04-R10 = the pow clauses of C01-R4); every mix of * / ^ is grouped as the grammar prescribes (C04-R8 = C06-R1/R6); a unit is re-derived on the value of the operand it came from (C04-R9); every dimension table is linear in the power (C04-R6); the exponent of a displayed unit is the decimal digits of the computed power in superscript (C04-R7: digit table, digit-function arguments proved <= 9, boundary exponents).",
  "C06": " Also: a run of blanks is one WHITESPACE token (C06-R7: where the token ends the next character was looked at and is not a blank); whatever token starts a value, the blanks in front of it are skipped before any checkpoint is taken, so they stay outside its node (C06-R5); the evaluator folds every operator of a group left to right, a `to` in a chain included (C06-R8 = C01-R6, summary of eval::eval on OPERATION nodes with two and three operators).",
  "C07": " Also: a percent literal is its own decimal text / 100 (C07-R6 = C01-R5).",
- "C09": " Also: the power guard sees the real power (C09-R5 = C04-R1/R5). The direction parameter of apply_conversion is found by behaviour (bool or enum).",
+ "C09": " Also: the magnitude converted is the magnitude written - sign, fraction digits, exponent (C09-R6 = C07-R4); the power guard sees the real power (C09-R5 = C04-R1/R5). The direction parameter of apply_conversion is found by behaviour (bool or enum).",
  "C10": " Also: a negative digits argument is one literal in every argument position - the lexer never looks at the text before the current position (C10-R8 = C12-R10).",
  "C12": " Also: the lexer reads the text forwards only (C12-R10); the parser primitives consume exactly what they promise (C12-R7 = C06-R4); every slice of the text runs between positions the lexer reached (C12-R8 = C11-R1's index obligations for syntax::*); parse() hands the parser the very text it keeps for the spans (C12-R9).",
  "C13": " Also: unit maps never keep cancelled entries, so equal quantities have equal representations (C13-R6 = C02-R1); a*b = b*a also with offset scales: each operand's units are re-derived on its own value (C13-R7 = C04-R9, found a defect, repaired in 42759a9); a / a = 1: the divisor's zero test is made on the normalised value and dominates the division (C13-R8 = the div clauses of C01-R4).",
